@@ -41,4 +41,31 @@ UNITS = [
         'call_map': {'find_last_bit_set': 'flbs'},
         'functions': ['diff', 'remap_index', 'calc_remap_shift'],
     },
+    {
+        'name': 'KirschIdxGen',
+        'source': 'xenium/kirsch_bounded_kfifo_queue.hpp',
+        'class': 'marked_idx',
+        'tu': '#include <xenium/kirsch_bounded_kfifo_queue.hpp>\ntemplate class xenium::kirsch_bounded_kfifo_queue<int*>;\n',
+        'state': {'_val': 'val'},
+        'constants': {'bits': None, 'val_mask': None},
+        'rename': {'marked_idx': 'mk_idx', 'get': 'idx_get', 'mark': 'idx_mark'},
+        'param_types': {'marked_idx': 'uint64_t, uint64_t'},
+        'functions': ['marked_idx', 'get', 'mark'],
+    },
+    {
+        'name': 'RamalheteNodeGen',
+        'source': 'xenium/ramalhete_queue.hpp',
+        'class': 'node',
+        'const_class': 'ramalhete_queue',
+        'tu': '#include <xenium/ramalhete_queue.hpp>\n#include <xenium/reclamation/generic_epoch_based.hpp>\n'
+              'template class xenium::ramalhete_queue<int*, xenium::policy::reclaimer<xenium::reclamation::epoch_based<>>, xenium::policy::entries_per_node<4>>;\n',
+        'state': {'pop_idx': 'pop_idx', 'push_idx': 'push_idx'},
+        'mem1': 'entries',
+        'constants': {'step_size': None, 'max_idx': None},
+        'symbolic_constants': ['entries_per_node'],
+        'call_map': {'min': 'N.min'},
+        'effect_calls': {'delete_value': 'count'},
+        'rename': {'~node': 'node_dtor'},
+        'functions': ['~node'],
+    },
 ]
